@@ -112,6 +112,14 @@ CHECKS.update({
             "really showed different raw token orders in 20 expansions, so that silence is meaningful."),
 })
 
+CHECKS.update({
+    "C14": ("exploration", "3.C14",
+            "presentation-group (metamorphic) monitor: bounded semantic equivalence of by-name / inline / flatten / as presentations",
+            "For every generated field type the same parent is emitted once per presentation; the model decides, by mutual inclusion of "
+            "enumerated inhabitants, that inlining equals naming, flattening equals the model-built merge, `as` equals the twin textually, "
+            "and that inline() of every type equals its declaration instantiated at its arguments."),
+})
+
 PENDING = {}
 
 
